@@ -9,7 +9,8 @@ Open Scope string_scope.
 Definition is_java_test_file (path : string) : bool :=
   has_suffix "Test.java" path || has_suffix "Tests.java" path.
 Definition is_java_test_package (path : string) : bool := contains path "src/test/java/".
-Definition java_test_file_filter (path : string) : bool := is_java_test_file path || is_java_test_package path.
+Definition java_test_file_filter (path : string) : bool :=
+  has_suffix ".java" path && (is_java_test_file path || is_java_test_package path).
 Definition java_code_file_filter (path : string) : bool :=
   has_suffix ".java" path && negb (java_test_file_filter path).
 
